@@ -396,10 +396,12 @@ fn infer_source_field(
 
     // if we have exactly one field (which is not ignored)
     if fields.len() == 1 && parsed_fields.data.fields.len() == 1 {
-        // then it is the source field, unless it is used as the backtrace field
-        // or was explicitly marked as non-source
-        return (parsed_fields.backtrace.is_none()
-            && parsed_fields.data.infos[0].info.source != Some(false))
+        // then it is the source field, unless it is taken for the backtrace field by the name
+        // of its type (explicitly marked `#[error(backtrace)]`, it is the source handing on its
+        // own backtrace) or was explicitly marked as non-source
+        let info = &parsed_fields.data.infos[0].info;
+        return ((parsed_fields.backtrace.is_none() || info.backtrace == Some(true))
+            && info.source != Some(false))
         .then_some(0);
     }
 
